@@ -288,12 +288,53 @@ def search(ctx):
         if not np.all(lo == lo[0]):
             add("escape_clamp", f"collisional_escape_rate not constant below the 0.1 clamp: {lo}", [nu[0], 0.05])
     ctx.count("search_points", n)
+    if ctx.thorough or ctx.failures:
+        V += integer_arguments(ctx, rng)
+    return V
+
+
+def integer_arguments(ctx, rng):
+    """the documented expressions hold for every argument type the kernels accept: the same (integral) values given as int64 and as
+    float64 must give the same result.  A ufunc that already owns a float64 loop serves integer arrays by casting them, so the integer
+    specialisation is compiled first on a fresh dispatcher built from the kernel's own Python definition and options (as C19 does)."""
+    import numba
+    import ebisim.plasma as pl
+    V = []
+    for name, kinds in ARGS.items():
+        obj = getattr(pl, name, None)
+        if obj is None or not hasattr(obj, "_dispatcher"): continue
+        disp = obj._dispatcher
+        opts = {o: v for o, v in dict(disp.targetoptions).items() if o in ("nopython", "fastmath", "forceobj", "boundscheck")}
+        cols = special_points(name, rng, [draw(rng, k, 60) for k in kinds])
+        icols = [np.maximum(np.round(np.minimum(c, 1e12)), 0 if kd in ("q", "q1") else 1).astype(np.int64) for c, kd in zip(cols, kinds)]
+        with np.errstate(all="ignore"):
+            try:
+                fresh = numba.vectorize(cache=True, **opts)(disp.py_func)
+                ci = np.asarray(fresh(*icols), dtype=float)
+                cf = np.asarray(obj(*[c.astype(float) for c in icols]), dtype=float)
+            except Exception as e:
+                V.append({"key": {"clause": "integer_arguments_" + name}, "what": f"{name} fails for integer arguments: {type(e).__name__}: {str(e)[:200]}",
+                          "input": {"clause": "integer_arguments_" + name, "args": []}})
+                continue
+            ctx.count("integer_argument_points", ci.size)
+            tol = 1e-9 * 25 if name in ("clog_ei", "clog_ii") else 1e-9 * np.maximum(np.abs(ci), np.abs(cf)) + 1e-300
+            bad = ~(~np.isfinite(ci) & ~np.isfinite(cf)) & ~(np.abs(ci - cf) <= tol)
+        if np.any(bad):
+            i = int(np.argmax(bad))
+            V.append({"key": {"clause": "integer_arguments_" + name},
+                      "what": f"{name}{tuple(int(c[i]) for c in icols)} = {ci[i]!r} for integer arguments but {cf[i]!r} for the same values as floats",
+                      "input": {"clause": "integer_arguments_" + name, "args": [int(c[i]) for c in icols]}})
     return V
 
 
 def replay(ctx, data):
     v = data.get("violation", {})
     clause = v.get("key", {}).get("clause")
+    if str(clause).startswith("integer_arguments_"):
+        for w in integer_arguments(ctx, np.random.default_rng([ctx.seed, 1515])):
+            if w["key"]["clause"] == clause:
+                return w
+        return None
     for w in search(ctx):
         if w["key"]["clause"] == clause:
             return w
